@@ -9,6 +9,8 @@ A=${WTROOT:-/tmp/wt}/apply_$NAME
 mkdir -p $OUT; rm -rf $A; mkdir -p $A/orig $A/chg
 cp $WT/_seeded/patch.diff $WT/_seeded/demo.py $OUT/ 2>/dev/null
 cp $WT/_seeded/notes.md $OUT/notes.md 2>/dev/null
+# a change written against an older /repo HEAD that no longer applies is ported by hand (same mutation, current context)
+if [ -f $WT/_seeded/patch_ported.diff ]; then cp $OUT/patch.diff $OUT/patch_original.diff; cp $WT/_seeded/patch_ported.diff $OUT/patch.diff; fi
 git -C /repo archive HEAD src tests | tar -x -C $A/orig
 git -C /repo archive HEAD src tests | tar -x -C $A/chg
 (cd $A/chg && patch -p1 < $OUT/patch.diff > $OUT/apply.log 2>&1) || { echo "PATCH DOES NOT APPLY"; cat $OUT/apply.log; exit 3; }
